@@ -380,7 +380,7 @@ def _events(node, tu):
         k = n.get('kind')
         if k == 'CallExpr':
             cn = astdb.callee_name(n)
-            if cn == 'wasmFunctionIDsAppend':
+            if cn == 'wasmFunctionIDsAppend' or cn in _append_wrappers(tu):
                 a = astdb.call_args(n)
                 evs.append(('append', astdb.expr_text(strip(a[0], casts=True)), astdb.expr_text(strip(a[1], casts=True))))
             elif cn in ('exit', 'abort'):
@@ -392,6 +392,29 @@ def _events(node, tu):
             evs.append(('assign', astdb.expr_text(strip(kids(n)[0]))))
     # source order: walk is pre-order, calls nested in conditions come first as in evaluation order for these simple forms
     return evs
+
+
+_WRAPPERS = {}
+
+
+def _append_wrappers(tu):
+    """functions that do nothing with the list but hand their (list, id) parameters to wasmFunctionIDsAppend (possibly exiting on
+    failure) - an append under another name"""
+    key = id(tu)
+    if key not in _WRAPPERS:
+        out = set()
+        for name, f in tu.functions.items():
+            body = astdb.fn_body(f)
+            ps = [p.get('name') for p in astdb.fn_params(f)]
+            if body is None or len(ps) != 2:
+                continue
+            calls = [c for c in walk(body) if c.get('kind') == 'CallExpr' and astdb.callee_name(c) not in ('exit', 'abort')]
+            if len(calls) == 1 and astdb.callee_name(calls[0]) == 'wasmFunctionIDsAppend' and \
+                    [astdb.expr_text(strip(a, casts=True)) for a in astdb.call_args(calls[0])] == ps and \
+                    not any(x.get('kind') in ('WhileStmt', 'ForStmt', 'DoStmt') for x in walk(body)):
+                out.add(name)
+        _WRAPPERS[key] = out
+    return _WRAPPERS[key]
 
 
 def check_partition(chk):
